@@ -453,6 +453,27 @@ def body_spelling(ctx: H.BaseCtx):
             continue
         _same(ctx, d, n, "numpy.%s with out=" % key)
         _same(ctx, o1, o2, "numpy.%s with out=: the target afterwards" % key)
+    # where= masks that are all True and larger than the operands (the mask takes part in broadcasting): both spellings, same shape
+    if not ctx.symbolic:
+        shp = tuple(numpy.broadcast_shapes(getattr(a, "shape", ()), getattr(b, "shape", ())))
+        for mask in (numpy.ones((2,) + shp, dtype=bool), numpy.ones((3, 1) + shp, dtype=bool)):
+            for key in ("add", "sub"):
+                op_, np_, npo_ = table[key]
+                try:
+                    with numpy.errstate(all="ignore"):
+                        d = npo_(a, b, where=mask)
+                except Exception:
+                    continue
+                try:
+                    with numpy.errstate(all="ignore"):
+                        n_ = np_(a, b, where=mask)
+                except Exception as e:
+                    ctx.fail("spelling", "numpy.%s(.., where=larger all-True mask) raises %s while numpoly.%s returns" % (np_.__name__, type(e).__name__, np_.__name__))
+                    continue
+                if tuple(d.shape) != tuple(n_.shape):
+                    ctx.fail("spelling", "numpy.%s(.., where=all-True mask of shape %s): shape %s, numpoly.%s gives %s" % (np_.__name__, mask.shape, tuple(n_.shape), np_.__name__, tuple(d.shape)))
+                else:
+                    _same(ctx, d, n_, "numpy.%s with where= an all-True mask larger than the operands" % np_.__name__)
     # the same object on both sides (identity must not short-cut anything)
     for key in ("eq", "ne", "le", "add", "sub", "mul"):
         op_, np_, npo_ = table[key]
@@ -532,7 +553,7 @@ def gen_cases(tier: str, seed: int) -> List[Dict]:
                 cases.append(c)
     n = 0
     shapes = [((), ()), ((2,), ()), ((2,), (2,)), ((1, 2), (2, 1))]
-    namesets = [(("q0",), ("q0",)), (("q0", "q1"), ("q1",)), (("q2", "q10"), ("q0",))]
+    namesets = [(("q0",), ("q0",)), (("q0", "q1"), ("q1",)), (("q2", "q10"), ("q0",)), (("q0",), ("q0", "q1")), (("q1",), ("q0", "q1"))]
     for _ in range(2 if quick else 8):
         for s1, s2 in shapes:
             n1, n2 = rng.choice(namesets)
